@@ -1048,9 +1048,15 @@ bufferevent_generic_adj_existing_timeouts_(struct bufferevent *bev)
 int
 bufferevent_add_event_(struct event *ev, const struct timeval *tv)
 {
-	if (!evutil_timerisset(tv))
+	if (!evutil_timerisset(tv)) {
+		/* A persistent event remembers the interval of an earlier
+		 * event_add() even after event_del(); forget it, or the old
+		 * timeout comes back after the next I/O activation. */
+		if ((ev->ev_events & EV_PERSIST) &&
+		    !event_pending(ev, EV_TIMEOUT, NULL))
+			evutil_timerclear(&ev->ev_io_timeout);
 		return event_add(ev, NULL);
-	else
+	} else
 		return event_add(ev, tv);
 }
 
